@@ -61,7 +61,17 @@ fn layout(d: &mut Dec, cx: &mut Cx, spaced: bool) -> Res {
     cx.describe(|| format!("{} (CR LF variant compared: {})", item.desc(), with_crlf));
     let transparent_spaced = spaced && item.text_color.is_none() && item.background.is_none();
     let spacing = if spaced { d.u(1, 3) } else { 0 };
-    let font_value = MonoFont { character_spacing: spacing, ..*item.font() };
+    let mut font_value = MonoFont { character_spacing: spacing, ..*item.font() };
+    // derived choice: one font in four gets another baseline than the built-in one, also on or below the
+    // bottom of the glyph cell (a raised font): the Alphabetic offset is `font.baseline`, whatever it is
+    let hgt = font_value.character_size.height;
+    font_value.baseline = match d.derived(0xba5e, 16) {
+        0 => 0,
+        1 => hgt.saturating_sub(1),
+        2 => hgt,
+        3 => hgt + 1 + d.derived(0xba5f, 12),
+        _ => font_value.baseline,
+    };
     let font = &font_value;
     let sp = spacing as i32;
     let (cw, ch) = (font.character_size.width as i32, font.character_size.height as i32);
